@@ -145,6 +145,10 @@ def interpreted(fn, rec=None, extra=None, helpers=()):
             for n in ("digamma", "gammainc", "ndtri"):
                 setattr(ns, n, rec.wrap(n, getattr(sc, n)))
             g["sc"] = ns
+    else:
+        for name, base in (("log", c_log), ("sqrt", c_sqrt), ("pow", c_pow)):
+            if name in g or name == "pow":
+                g[name] = base
     if extra:
         g.update(extra)
     for h in helpers:
